@@ -29,7 +29,8 @@ type Obs struct {
 	Tries        int                                `json:"tries"`
 	// wall-clock seconds of connect / observe / teardown (diagnostics only)
 	ConnS, ObsS, TearS float64
-	HarnessError string                             `json:"harness_error,omitempty"`
+	HarnessError       string `json:"harness_error,omitempty"`
+	TeardownNote       string `json:"teardown_note,omitempty"`
 }
 
 // WorkerResult is the answer of a worker.
@@ -320,6 +321,7 @@ func (w *worker) teardown(cl *e2elib.Client, c Case, o *Obs) error {
 		}
 	}
 	cl.Close()
+	left := ""
 	ok, err := e2elib.WaitFor(waitTimeout, func() (bool, error) {
 		for _, k := range e2elib.SessKinds {
 			l, err := w.api.List(k)
@@ -328,6 +330,7 @@ func (w *worker) teardown(cl *e2elib.Client, c Case, o *Obs) error {
 			}
 			for _, it := range l {
 				if addrs[it.RemoteAddr] {
+					left = fmt.Sprintf("%s %s %s state=%s path=%s", k, it.ID, it.RemoteAddr, it.State, it.Path)
 					return false, nil
 				}
 			}
@@ -344,7 +347,7 @@ func (w *worker) teardown(cl *e2elib.Client, c Case, o *Obs) error {
 		return true, nil
 	})
 	if !ok {
-		return fmt.Errorf("the server does not forget the client: %v", err)
+		return fmt.Errorf("the server does not forget the client (%s): %v", left, err)
 	}
 	return nil
 }
@@ -405,7 +408,8 @@ func (w *worker) runCase(c Case) Obs {
 		o.ObsS = time.Since(t0).Seconds()
 		t0 = time.Now()
 		if err = w.teardown(cl, c, &o); err != nil {
-			o.HarnessError = err.Error()
+			// the observation is complete; a later publisher of the path checks by itself that the path is free
+			o.TeardownNote = err.Error()
 		}
 		o.TearS = time.Since(t0).Seconds()
 		return o
